@@ -99,7 +99,7 @@ func (fx *FnCtx) resolveAddr(addr ssa.Value) *Loc {
 		switch u := a.X.Type().Underlying().(type) {
 		case *types.Slice:
 			s := fx.val(a.X)
-			return &Loc{kind: locElem, base: app("Int", "s_arr", s), idx: app("Int", "+", app("Int", "s_off", s), fx.val(a.Index)), rootT: u.Elem()}
+			return &Loc{kind: locElem, base: app("Int", "s_arr", s), idx: app("Int", "sidx", s, fx.val(a.Index)), rootT: u.Elem()}
 		case *types.Pointer:
 			in := fx.resolveAddr(a.X)
 			n := *in
@@ -386,6 +386,11 @@ func (fx *FnCtx) arith(v ssa.Value, r Term, t types.Type) {
 		return
 	}
 	c := fx.define(v, r)
+	if fx.fc.MathInts != "" {
+		fx.notes["machine arithmetic treated as mathematical (no overflow obligations): "+fx.fc.MathInts] = true
+		fx.assume(inRange(c, t))
+		return
+	}
 	fx.oblig("safe.ovf", inRange(c, t), fmt.Sprintf("no overflow in %s arithmetic", t), nil, "")
 }
 
@@ -724,6 +729,8 @@ func (fx *FnCtx) mapUpdate(x *ssa.MapUpdate) {
 	mt := x.Map.Type().Underlying().(*types.Map)
 	m, k, v := fx.val(x.Map), fx.val(x.Key), fx.val(x.Value)
 	fx.oblig("safe.nil", not(eq(m, Term{"0", "Int"})), "assignment to entry in nil map", nil, "")
+	fx.freshWrite = isFreshBase(x.Map)
+	defer func() { fx.freshWrite = false }()
 	ks, vs := P.sorts.sortOf(mt.Key()), P.sorts.sortOf(mt.Elem())
 	inner := fmt.Sprintf("(Array %s %s)", ks, vs)
 	comp := "M$" + typeKey(mt)
@@ -1233,6 +1240,10 @@ func (fx *FnCtx) builtin(v *ssa.Call, c *ssa.CallCommon, b *ssa.Builtin) {
 func (fx *FnCtx) appendCall(v *ssa.Call, c *ssa.CallCommon) {
 	P := fx.P
 	st := fx.cur
+	if cst, ok := c.Args[0].(*ssa.Const); (ok && cst.Value == nil) || isFreshBase(c.Args[0]) {
+		fx.freshWrite = true
+		defer func() { fx.freshWrite = false }()
+	}
 	s := fx.val(c.Args[0])
 	et := c.Args[0].Type().Underlying().(*types.Slice).Elem()
 	es := P.sorts.sortOf(et)
@@ -1344,6 +1355,11 @@ func (fx *FnCtx) copyCall(v *ssa.Call, c *ssa.CallCommon) {
 // (such writes are invisible to the caller's pre-state and need no modifies entry).
 func isFreshBase(v ssa.Value) bool {
 	switch x := v.(type) {
+	case *ssa.UnOp:
+		if a, ok := x.X.(*ssa.Alloc); ok && x.Op == token.MUL && !a.Heap {
+			return localAlwaysFresh(a, 0)
+		}
+		return false
 	case *ssa.Alloc:
 		return x.Heap
 	case *ssa.MakeSlice, *ssa.MakeMap:
@@ -1356,4 +1372,37 @@ func isFreshBase(v ssa.Value) bool {
 		return isFreshBase(x.X)
 	}
 	return false
+}
+
+// localAlwaysFresh: every value ever stored into the local is an object allocated by this invocation
+// (make, nil, or append to the local itself).
+func localAlwaysFresh(a *ssa.Alloc, depth int) bool {
+	if depth > 3 || a.Referrers() == nil {
+		return false
+	}
+	for _, r := range *a.Referrers() {
+		s, ok := r.(*ssa.Store)
+		if !ok || s.Addr != a {
+			continue
+		}
+		switch v := s.Val.(type) {
+		case *ssa.MakeSlice, *ssa.MakeMap:
+		case *ssa.Const:
+			if v.Value != nil {
+				return false
+			}
+		case *ssa.Call:
+			b, ok := v.Call.Value.(*ssa.Builtin)
+			if !ok || b.Name() != "append" {
+				return false
+			}
+			ld, ok := v.Call.Args[0].(*ssa.UnOp)
+			if !ok || ld.X != ssa.Value(a) {
+				return false
+			}
+		default:
+			return false
+		}
+	}
+	return true
 }
